@@ -1,1 +1,104 @@
-(* stub *)
+(** C09: the switches are honoured and orthogonal.  Assembly of
+    Proofs/FramesIR.v (IR-level orthogonality of docs / codec),
+    Proofs/EmitMap.v (the emitter commutes with token renamings),
+    Proofs/SubstMap.v (so does path resolution) and Proofs/FramesGen.v (so does
+    the whole generation) into the C09 statements. *)
+From Coq Require Import List NArith String Bool Lia.
+From V Require Import Base.Strings Base.Result Model.Registry Model.Settings Model.Subst
+  Model.TypePath Model.Derives Model.Generate Model.Emit Model.Equal Model.Switches Model.Inputs
+  Proofs.GenProofs Proofs.TpMap Proofs.SubstMap Proofs.EmitMap Proofs.FramesIR.
+Import ListNotations.
+Open Scope string_scope. Open Scope list_scope.
+
+(** ** words the generator never makes up (given the switches) *)
+Lemma In_existsb w l : In w l -> existsb (String.eqb w) l = true.
+Proof. intros H. apply existsb_exists. exists w. split; [exact H|apply String.eqb_refl]. Qed.
+
+Ltac not_gen_lit_tac H :=
+  destruct H as [H|[(n & H)|[(n & H)|[(n & H)|(x & H)]]]];
+  [ apply In_existsb in H; vm_compute in H; discriminate H
+  | cbn in H; discriminate H
+  | unfold N_to_string in H; destruct (N.to_uint n); cbn in H; discriminate H
+  | unfold N_to_string in H; destruct (N.to_uint n); cbn in H; discriminate H
+  | unfold lit_string in H; discriminate H ].
+
+Lemma std_not_gen_lit d c : ~ gen_lit d c "std".
+Proof. intros H. destruct d, c; not_gen_lit_tac H. Qed.
+
+Lemma doc_not_gen_lit c : ~ gen_lit false c "doc".
+Proof. intros H. destruct c; not_gen_lit_tac H. Qed.
+
+Lemma codec_not_gen_lit d : ~ gen_lit d false "codec".
+Proof. intros H. destruct d; not_gen_lit_tac H. Qed.
+
+Lemma gen_lit_mono d c w : gen_lit false false w -> gen_lit d c w.
+Proof.
+  intros [H|H]; [left|right; exact H].
+  unfold lits_of in *. cbn [app] in H. rewrite app_nil_r in H. apply in_or_app. left. exact H.
+Qed.
+
+(** ** docs stripped: the inputs stored in the IR are unchanged *)
+Lemma ir_inputs_strip_docs ir : ir_inputs (strip_docs_ir ir) = ir_inputs ir.
+Proof.
+  unfold ir_inputs, strip_docs_ir. cbn [ti_derives ti_kind]. f_equal.
+  destruct (ti_kind ir) as [c|name docs vs]; [reflexivity|].
+  cbn [strip_docs_kind kind_inputs]. f_equal.
+  induction vs as [|v vs IH]; [reflexivity|]. cbn [map flat_map]. rewrite IH. reflexivity.
+Qed.
+
+(** ** item level (the emitter alone; inputs = the tokens stored in the IR) *)
+Theorem docs_off_no_doc_attr s ir toks :
+  type_ir_tokens s (strip_docs_ir ir) = Ok toks ->
+  ~ In "doc" (alloc_tokens (s_alloc s) ++ ir_inputs ir) ->
+  ~ In "doc" toks.
+Proof.
+  intros H Hn. apply (type_ir_tokens_from false s (strip_docs_ir ir) toks "doc" H).
+  - intros _. apply strip_docs_ir_empty.
+  - apply doc_not_gen_lit.
+  - rewrite ir_inputs_strip_docs. exact Hn.
+Qed.
+
+Theorem codec_off_no_codec_attr s ir toks :
+  ti_codec ir = false ->
+  type_ir_tokens s ir = Ok toks ->
+  ~ In "codec" (alloc_tokens (s_alloc s) ++ ir_inputs ir) ->
+  ~ In "codec" toks.
+Proof.
+  intros Hc H Hn. apply (type_ir_tokens_from true s ir toks "codec" H).
+  - discriminate.
+  - rewrite Hc. apply codec_not_gen_lit.
+  - exact Hn.
+Qed.
+
+Theorem no_std_item s a ir toks :
+  s_alloc s = ACustom a ->
+  type_ir_tokens s ir = Ok toks ->
+  ~ In "std" (a ++ ir_inputs ir) ->
+  ~ In "std" toks.
+Proof.
+  intros Ha H Hn. apply (type_ir_tokens_from true s ir toks "std" H).
+  - discriminate.
+  - apply std_not_gen_lit.
+  - rewrite Ha. exact Hn.
+Qed.
+
+Theorem no_std_path a t toks :
+  tp_tokens a t = Ok toks -> ~ In "std" (a ++ tpath_inputs t) -> ~ In "std" toks.
+Proof. intros H Hn. apply (tp_tokens_from a t toks "std" H); [apply std_not_gen_lit|exact Hn]. Qed.
+
+(** ** codec on: every variant starts with its index attribute, every compact field with its marker *)
+Theorem codec_on_variants s ir name docs vs toks :
+  ti_codec ir = true -> ti_kind ir = KEnum name docs vs -> type_ir_tokens s ir = Ok toks ->
+  exists (bodies : list tokens) ignore,
+    Forall2 (fun (v : N * composite_ir) body =>
+               exists fields,
+                 enum_field_tokens s (ci_kind (snd v)) true = Ok fields /\
+                 body = codec_index (fst v) ++ doc_tokens (ci_docs (snd v)) ++
+                        [ci_name (snd v)] ++ fields ++ [","]) vs bodies /\
+    toks = derives_tokens (ti_derives ir) ++ doc_tokens docs ++ ["pub"; "enum"; name] ++
+           type_params_tokens (ti_params ir) ++ ["{"] ++ List.concat bodies ++ ignore ++ ["}"].
+Proof.
+  intros Hc Hk H.
+  destruct (type_ir_tokens_enum_decomp s ir name docs vs toks Hk H) as (bodies & ignore & HF & Ht).
+  rewrite Hc in HF. exists bodies, ignore. split; [exact HF|exact Ht].
+Qed.
